@@ -304,6 +304,7 @@ func checkCmd(opts *RunOpts, args []string) int {
 	seenObl := map[string]bool{}
 	witnessCache := map[string]bool{}
 	var unsatCore []string
+	var cov_order map[string]any
 
 	for _, res := range run.Results {
 		if res.Trusted {
@@ -439,6 +440,46 @@ func checkCmd(opts *RunOpts, args []string) int {
 			violations = append(violations, fmt.Sprintf("VIOLATION property=%s replay=%s obligation=bounded.%s.group_%s.exclusive two members of an exclusive group active: %s", prop, rp, b.Schema, b.Group, b.Violation))
 		}
 	}
+	if run.OrderRan {
+		knownSet := map[string]bool{}
+		if b, err := os.ReadFile(filepath.Join(opts.Verif, "baseline", "c05_order_known.txt")); err == nil {
+			for _, l := range strings.Split(string(b), "\n") {
+				if l = strings.TrimSpace(l); l != "" && !strings.HasPrefix(l, "#") {
+					knownSet[l] = true
+				}
+			}
+		}
+		if kf := findKnown(known, prop, "bounded.resolver.target_order"); kf == nil {
+			knownSet = map[string]bool{}
+		} else if ok, _ := runWitness(opts, kf); !ok {
+			knownSet = map[string]bool{}
+		}
+		var fresh []string
+		stillKnown := 0
+		for _, f := range run.OrderFailing {
+			key := f
+			if i := strings.Index(f, " => "); i >= 0 {
+				key = f[:i]
+			}
+			if knownSet[key] {
+				stillKnown++
+			} else {
+				fresh = append(fresh, f)
+			}
+		}
+		if stillKnown > 0 {
+			knownLines = append(knownLines, fmt.Sprintf("KNOWN-FINDING: property=%s the After comparator of SortStates is not a strict weak order: in %d of the %d acyclic 4-state schemas of the bounded family (listed one by one in baseline/c05_order_known.txt) Add{A,B,C,D} resolves a state before one it is declared After (witness TestVerifWitnessAfterOrder) [bounded.resolver.target_order]", prop, stillKnown, run.OrderTotal))
+			nKnown++
+		}
+		if len(fresh) > 0 {
+			dir := filepath.Join(outRoot(opts), "replays", prop)
+			os.MkdirAll(dir, 0o755)
+			rp := filepath.Join(dir, "bounded.resolver.target_order.replay.txt")
+			os.WriteFile(rp, []byte(fmt.Sprintf("property: %s\nobligation: bounded.resolver.target_order\nkind: bounded stand-in on the real machine: all acyclic 4-state schemas with at most one Require and one After per state (%d), Add{A,B,C,D}\nfailing-inputs (schema => resolved order (violated constraint)), not among the recorded known ones:\n%s\n", prop, run.OrderTotal, strings.Join(fresh, "\n"))), 0o644)
+			violations = append(violations, fmt.Sprintf("VIOLATION property=%s replay=%s obligation=bounded.resolver.target_order %d schema(s) of the bounded family resolve a state before one it Requires / is After, e.g. %s", prop, rp, len(fresh), fresh[0]))
+		}
+		cov_order = map[string]any{"family": "acyclic 4-state schemas, <=1 Require and <=1 After per state", "schemas": run.OrderTotal, "failing_known": stillKnown, "failing_new": len(fresh), "label": "bounded"}
+	}
 	notes = append(notes, run.ExtraNotes...)
 	for _, l := range knownLines {
 		fmt.Println(l)
@@ -477,6 +518,9 @@ func checkCmd(opts *RunOpts, args []string) int {
 		"abstractions":              uniqNotes,
 		"samples":                   samples,
 		"timing":                    map[string]any{"load_s": round3(run.LoadS), "vcgen_s": round3(run.GenS), "solve_s": round3(run.SolveS)},
+	}
+	if cov_order != nil {
+		cov["bounded_order_standin"] = cov_order
 	}
 	if len(run.Bounded) > 0 || run.SchemaCount > 0 {
 		cov["schemas_extracted"] = run.SchemaCount
